@@ -143,4 +143,178 @@ theorem C06_scan_indep_same_state (hside : PhaseOk tbl P = true) (ht : EmitsChec
 
 end
 
+/-! ### non-vacuity: a controller that counts its `handle_start_tag` / `handle_end_tag` calls -/
+
+/-- counts the `handle_start_tag` calls (+1) and `handle_end_tag` calls (+100), never captures anything -/
+def countCtl : Controller Nat :=
+  { initialFlags := fun _ => Flags.ofNat 0
+    startTag := fun g _ _ => (g + 1, .flags (Flags.ofNat 0))
+    auxInfo := fun g _ => (g, .ok (Flags.ofNat 0))
+    endTag := fun g _ => (g + 100, Flags.ofNat 0)
+    token := fun g t => (g, { chunks := [t.raw] })
+    shouldEmit := fun _ => true
+    handleEnd := fun g => (g, [], none)
+    bailOut := fun g _ => (g, []) }
+
+theorem countCtl_clean : CtlClean countCtl where
+  token := by intro g t e h; simp [countCtl] at h
+  startTag := by intro g n ns e h; simp [countCtl] at h
+  auxInfo := by intro g i e h; simp [countCtl] at h
+  handleEnd := by intro g e h; simp [countCtl] at h
+
+theorem countCtl_emit : EmitDiscipline countCtl where
+  start := fun _ _ _ => rfl
+  aux := fun _ _ => rfl
+  end_ := fun _ _ _ => rfl
+
+theorem countCtl_hashOnly : HashOnly countCtl where
+  start := fun _ _ _ => rfl
+  end_ := fun _ _ => rfl
+
+theorem countCtl_stayScan : StayScan countCtl where
+  start := by
+    intro d n ns hm
+    refine ⟨rfl, ⟨rfl, hm.tp, ?_⟩⟩
+    exact hm.emis
+  end_ := by
+    intro d n hm
+    have hem : d.emissionEnabled = true := hm.emis
+    have hstop : ∀ g, ({ d with ctl := g } : Disp Nat).shouldStopRemoving countCtl = false := by
+      intro g; simp [Disp.shouldStopRemoving, hem]
+    unfold Disp.endTagHint
+    rw [flush_idle hm.tp, DRes.bind_ok' _ rfl]
+    dsimp only
+    rw [hstop]
+    exact ⟨rfl, ⟨rfl, hm.tp, hem⟩⟩
+
+/-- the two fresh dispatchers: `H = countCtl` alone, and with a text observer -/
+def ds0 : Disp Nat := { ctl := 0, flags := Flags.ofNat 0 }
+def dl0 : Disp (Nat × Flags) := { ctl := (0, Flags.ofNat 0), flags := (Flags.ofNat 0).join (Flags.ofNat 1) }
+
+theorem obsR_0 : ObsR false dl0 ds0 :=
+  ObsR.mk' (c' := (0, Flags.ofNat 0)) (c := 0)
+    (v' := ⟨(Flags.ofNat 0).join (Flags.ofNat 1), true, false, false, false, 0, .data, 0⟩)
+    (v := ⟨Flags.ofNat 0, true, false, false, false, 0, .data, 0⟩) rfl rfl rfl rfl
+    ⟨rfl, ⟨Flags.ofNat 1, rfl⟩, fun hh => (by cases hh), (by decide), rfl, rfl, rfl, rfl, rfl,
+      fun hh => (by cases hh), fun _ hh => (by cases hh), Nat.le_refl _⟩
+
+theorem scanMode_0 : ScanMode countCtl ds0 := ⟨by decide, rfl, rfl⟩
+
+/-- `<a b='c'>x</a><!--` (`sampleInput`): 15 lockstep steps, the plain run in the tag scanner (2 hints), the
+observing run in the lexer (a start tag, a text, an end tag lexeme; the text goes to the observer): `countCtl`
+ends in state 101 in both — by the theorem, and by evaluation. -/
+example : ∃ ms' ml',
+    runSteps (envPlain countCtl Gen.Syntax.table Gen.Tags.cfg) sampleInput 15
+      ⟨{ state := Gen.Syntax.table.dataState }, .scanner {}, { sink := ds0, sim := Sim.new false }⟩ = some ms' ∧
+    runSteps (envObs countCtl (Flags.ofNat 1) Gen.Syntax.table Gen.Tags.cfg) sampleInput 15
+      ⟨{ state := Gen.Syntax.table.dataState }, .lexer {}, { sink := dl0, sim := Sim.new false }⟩ = some ml' ∧
+    ml'.x.sink.ctl.1 = ms'.x.sink.ctl ∧ ms'.x.sink.ctl = 101 := by
+  have h1 : ((runSteps (envPlain countCtl Gen.Syntax.table Gen.Tags.cfg) sampleInput 15
+      ⟨{ state := Gen.Syntax.table.dataState }, .scanner {}, { sink := ds0, sim := Sim.new false }⟩).map
+        fun m => (m.c.state, m.x.sink.ctl)) = some (41, 101) := by decide +kernel
+  have h2 : ((runSteps (envObs countCtl (Flags.ofNat 1) Gen.Syntax.table Gen.Tags.cfg) sampleInput 15
+      ⟨{ state := Gen.Syntax.table.dataState }, .lexer {}, { sink := dl0, sim := Sim.new false }⟩).map
+        fun m => m.c.state) = some 41 := by decide +kernel
+  cases e1 : runSteps (envPlain countCtl Gen.Syntax.table Gen.Tags.cfg) sampleInput 15
+      ⟨{ state := Gen.Syntax.table.dataState }, .scanner {}, { sink := ds0, sim := Sim.new false }⟩ with
+  | none => rw [e1] at h1; cases h1
+  | some ms' =>
+    cases e2 : runSteps (envObs countCtl (Flags.ofNat 1) Gen.Syntax.table Gen.Tags.cfg) sampleInput 15
+        ⟨{ state := Gen.Syntax.table.dataState }, .lexer {}, { sink := dl0, sim := Sim.new false }⟩ with
+    | none => rw [e2] at h2; cases h2
+    | some ml' =>
+      rw [e1] at h1
+      simp only [Option.map_some, Option.some.injEq, Prod.mk.injEq] at h1
+      have hab : genPhaseLabels.at ms'.c.state ≠ .inTag := by rw [h1.1]; decide
+      obtain ⟨r1, _, _⟩ := C06_scan_indep_same_state (P := genPhaseLabels) C06_phaseSide_gen C06_emitsChecked_gen (by decide)
+        countCtl_stayScan countCtl_hashOnly countCtl_emit (by decide) sampleInput false obsR_0 scanMode_0 15 ms' ml' e1 e2 hab
+      exact ⟨ms', ml', rfl, rfl, r1, h1.2⟩
+
+/-! ### `C06_independence_statement3` is false as stated -/
+
+def countWorld : World Nat := ⟨Gen.Syntax.table, Gen.Tags.cfg, countCtl⟩
+
+/-- `<a ` -/
+def openTagInput : Bytes := [0x3c, 0x61, 0x20]
+
+/-- `<a ` then `end`: both runs succeed; the plain run (tag scanner) has called `handle_start_tag` once — the hint
+at the end of the tag name —, the observing run (lexer) never: the tag lexeme is not emitted at end of input. -/
+theorem C06_unfinished_tag_witness :
+    let R' := run (World.withObs countWorld (Flags.ofNat 1))
+      (Rewriter.new (World.withObs countWorld (Flags.ofNat 1)) (0, countWorld.ctl.initialFlags 0) {}) [openTagInput]
+    let R := run countWorld (Rewriter.new countWorld 0 {}) [openTagInput]
+    R'.2 = [.ok, .ok] ∧ R.2 = [.ok, .ok] ∧ R'.1.stream.disp.ctl.1 = 0 ∧ R.1.stream.disp.ctl = 1 := by
+  decide +kernel
+
+/-- **`C06_independence_statement3` is refuted** (all its hypotheses hold of `countCtl` at the generated table) -/
+theorem C06_independence_statement3_refuted : ¬ C06_independence_statement3 := by
+  intro h
+  have := h Nat countWorld (Flags.ofNat 1) 0 {} [openTagInput] (fun _ => True) C15.C15_gen C15.C15_cert_gen
+    ⟨_, _, _, _, C15.C15_relexSide_gen⟩ countCtl_clean countCtl_emit (fun _ _ _ _ _ _ => rfl) trivial
+    (fun _ _ _ _ => trivial) (fun _ _ _ => trivial) (fun _ _ _ => trivial) (fun _ _ _ => trivial) (by decide) rfl
+  obtain ⟨h1, h2, h3, h4⟩ := C06_unfinished_tag_witness
+  have h5 := this (by intro x hx; rw [h1] at hx; simp at hx; exact hx) (by intro x hx; rw [h2] at hx; simp at hx; exact hx)
+  rw [h3, h4] at h5
+  cases h5
+
+/-! ### statements -/
+
+/-- **C06_independence, statement corrected after `C06_unfinished_tag_witness`** (not proved): as
+`C06_independence_statement3`, for inputs that do not end inside a tag after its name — expressed on the
+observing run, which is always in the lexer: its final table state is not labelled `inTag`. (When the input
+does end there, the plain run's `H` has received one more `handle_start_tag`/`handle_end_tag` call, for a tag
+that is never emitted: `C06_aligned_inTag`.) -/
+def C06_independence_statement4 : Prop :=
+  ∀ (γ : Type) (w : World γ) (o : Flags) (g : γ) (cfg : Settings) (chunks : List Bytes) (Ok : γ → Prop)
+    (L : Labels) (TT : TLabels) (P : PLabels) (S : SLabels),
+    WfTable w.tbl = true → checkCert w.tbl (computeCert w.tbl) = true →
+    RelexSide w.tbl L TT P S → CtlClean w.ctl → EmitDiscipline w.ctl →
+    (∀ g n t, Ok (w.ctl.endTag g n).1 → (w.ctl.endTag g n).2.nextEndTag = false →
+      (∃ nm raw src, t = Token.endTag nm raw src) →
+      w.ctl.token (w.ctl.endTag g n).1 t = ((w.ctl.endTag g n).1, { chunks := [t.raw] })) →
+    Ok g → (∀ g n ns, Ok g → Ok (w.ctl.startTag g n ns).1) → (∀ g i, Ok g → Ok (w.ctl.auxInfo g i).1) →
+    (∀ g n, Ok g → Ok (w.ctl.endTag g n).1) → (∀ g t, Ok g → Ok (w.ctl.token g t).1) →
+    o.sticky = true → cfg.strict = false →
+    let R' := run (World.withObs w o) (Rewriter.new (World.withObs w o) (g, w.ctl.initialFlags g) cfg) chunks
+    let R := run w (Rewriter.new w g cfg) chunks
+    (∀ x ∈ R'.2, x = CallRes.ok) → (∀ x ∈ R.2, x = CallRes.ok) →
+    P.at R'.1.stream.parser.lexC.state ≠ .inTag →
+      R'.1.stream.disp.ctl.1 = R.1.stream.disp.ctl
+
+/-- **rung R1 at the level of the parsing loop** (not proved; `C06_scan_indep_steps` is this for every
+signal-free prefix of the two loops): the two fresh machines over `ObsR false`-related dispatchers, `is_last` set,
+both parsing loops running to "end of input": the dispatchers are related at the end (outside a tag).
+Missing: the last state-function call, in which both machines signal — `StepRel` (`Lemmas/ScanLexSim.lean`)
+says nothing about the two machines in that case; needed is that the action list run before
+`break_on_end_of_input` keeps `Rel` (it does: `runBody_rel`, but `finishArm_rel` … `stateFn_rel` drop it). -/
+def C06_scan_indep_loop_statement : Prop :=
+  ∀ (γ : Type) (H : Controller γ) (o : Flags) (tbl : Table) (cfg : TagCfg) (P : PLabels),
+    PhaseOk tbl P = true → EmitsChecked tbl = true → P.at tbl.dataState = .outClean →
+    StayScan H → HashOnly H → EmitDiscipline H → o.sticky = true →
+    ∀ (inp : Bytes) (strict : Bool) (dl : Disp (γ × Flags)) (ds : Disp γ), ObsR false dl ds → ScanMode H ds →
+    ∀ (n ks kl : Nat) (ms' : M (Disp γ)) (ml' : M (Disp (γ × Flags))),
+      runLoop (envPlain H tbl cfg) inp n ⟨{ state := tbl.dataState, isLast := true }, .scanner {}, { sink := ds, sim := Sim.new strict }⟩ =
+        (ms', .endOfInput ks) →
+      runLoop (envObs H o tbl cfg) inp n ⟨{ state := tbl.dataState, isLast := true }, .lexer {}, { sink := dl, sim := Sim.new strict }⟩ =
+        (ml', .endOfInput kl) →
+      P.at ms'.c.state ≠ .inTag → ObsR false ml'.x.sink ms'.x.sink
+
+/-- **rung R2** (not proved): `C06_scan_indep_steps` without `StayScan` — when `H` answers a hint with `lex`
+the plain run's parser restarts its lexer at the `<` of the hinted tag (`C06_relex_same_tag`), the re-lexed tag
+lexeme faces the observing run's lexeme (`C06_event_start_tag_scan`, third alternative), and from there both are
+in the lexer (`obsCong`, `Lemmas/ObsParse.lean`, with `ObsR false`) until the plain run answers `scan`
+(`C06_back_to_scanner`, `C06_switch_lex_to_scan`). Stated for one `Parser.parse` call on the whole input. -/
+def C06_scan_indep_parse_statement : Prop :=
+  ∀ (γ : Type) (H : Controller γ) (o : Flags) (tbl : Table) (cfg : TagCfg) (L : Labels) (TT : TLabels) (P : PLabels) (S : SLabels)
+    (Ok : γ → Prop),
+    WfTable tbl = true → RelexSide tbl L TT P S → EmitsChecked tbl = true → EmitDiscipline H → PassThroughOn H Ok →
+    (∀ g n ns, Ok g → Ok (H.startTag g n ns).1) → (∀ g i, Ok g → Ok (H.auxInfo g i).1) →
+    (∀ g n, Ok g → Ok (H.endTag g n).1) → (∀ g t, Ok g → Ok (H.token g t).1) →
+    o.sticky = true →
+    ∀ (inp : Bytes) (dl : Disp (γ × Flags)) (ds : Disp γ), ObsR false dl ds → ScanMode H ds → Ok ds.ctl →
+      let R' := Parser.parse (envObs H o tbl cfg) inp true (Parser.new tbl dl .lex false)
+      let R := Parser.parse (envPlain H tbl cfg) inp true (Parser.new tbl ds .scan false)
+      (∃ k', R'.2 = .ok k') → (∃ k, R.2 = .ok k) → P.at R'.1.lexC.state ≠ .inTag →
+        R'.1.x.sink.ctl.1 = R.1.x.sink.ctl
+
 end LolHtml.Thm.C06
